@@ -12,6 +12,8 @@ package miner
 // the magic block (the harness owns all keys and switches the node identity).
 
 import (
+	"0chain.net/chaincore/chain"
+	"0chain.net/core/viper"
 	"context"
 	"fmt"
 	"sort"
@@ -66,6 +68,18 @@ type c45Pooled struct {
 	txn   *transaction.Transaction
 	from  *e3Wallet
 	score int64
+}
+
+// c45SetMaxBlockCost changes server_chain.block.max_block_cost the way a restart with another configuration would:
+// the chain's configuration is read again from the (otherwise unchanged) settings.
+func c45SetMaxBlockCost(t *rapid.T, mc *Chain, limit int) {
+	viper.Set("server_chain.block.max_block_cost", limit)
+	if err := mc.ChainConfig.(*chain.ConfigImpl).FromViper(); err != nil {
+		t.Fatalf("VERIF-HARNESS-ERROR re-reading the chain configuration: %v", err)
+	}
+	if mc.ChainConfig.MaxBlockCost() != limit {
+		t.Fatalf("VERIF-HARNESS-ERROR max block cost is %d after setting %d", mc.ChainConfig.MaxBlockCost(), limit)
+	}
 }
 
 func c45GenSpecs(t *rapid.T, nSenders int, label string, allowBuiltin, allowBadSig bool) []c45Spec {
@@ -252,6 +266,19 @@ func TestC45_GenerateVerify(t *testing.T) {
 		var blocks []*block.Block
 		defer func() { e.cleanup(rounds, blocks) }()
 
+		// the block cost limit is a chain setting: mostly the shipped 10000, sometimes just above the cost of all
+		// built-in transactions together (1356 + 600 + 794 + 56), so that a pool of cheap transactions fills a block
+		// to the limit
+		limit := rapid.SampledFrom([]int{10000, 10000, 10000, 3000, 3300, 4000}).Draw(t, "maxBlockCost")
+		saturate := rapid.IntRange(0, 3).Draw(t, "saturate") == 0
+		if roundClass >= 8 && rapid.Bool().Draw(t, "settingsRoundTight") {
+			limit, saturate = rapid.SampledFrom([]int{3000, 3300, 3100}).Draw(t, "tightLimit"), true
+		}
+		if limit != 10000 {
+			c45SetMaxBlockCost(t, mc, limit)
+			defer c45SetMaxBlockCost(t, mc, 10000)
+		}
+
 		// previous state
 		var pre []e3Pre
 		for i, n := 0, rapid.IntRange(0, 4).Draw(t, "pre"); i < n; i++ {
@@ -299,6 +326,18 @@ func TestC45_GenerateVerify(t *testing.T) {
 			senders := []*e3Wallet{e.clients[0], e.clients[1], e.poor, genWallet, e.clients[2]}[:nSenders]
 			others := []*e3Wallet{e.clients[3], e.clients[4], e.clients[5], e.clients[0], e.clients[1]}
 			specs := c45GenSpecs(t, nSenders, fmt.Sprintf("b%d", bi), allowBuiltin, allowBadSig)
+			if saturate {
+				// every sender pools ten cheap transactions in nonce order (pours cost 100, sends 10)
+				for s := 0; s < nSenders; s++ {
+					for i := 0; i < 10; i++ {
+						kind := c45Send
+						if rapid.IntRange(0, 2).Draw(t, "satPour") != 0 {
+							kind = c45Pour
+						}
+						specs = append(specs, c45Spec{Sender: s, Off: 1 + i, Kind: kind, Rank: 40 - 3*i, Var: rapid.IntRange(0, 6).Draw(t, "var")})
+					}
+				}
+			}
 			stNonce := map[string]int64{}
 			stBal := map[string]currency.Coin{}
 			for _, w := range append(append([]*e3Wallet{}, senders...), e.clients...) {
@@ -485,6 +524,13 @@ func TestC45_GenerateVerify(t *testing.T) {
 			if cost+2692 >= mc.ChainConfig.MaxBlockCost() {
 				st.Class("cost/within_one_expensive_call_of_limit")
 			}
+			if cost+56 >= mc.ChainConfig.MaxBlockCost() {
+				st.Class("cost/within_56_of_limit")
+				if r%200 == 0 {
+					st.Class("cost/within_56_of_limit_in_a_settings_round")
+				}
+			}
+			st.Class(fmt.Sprintf("max_block_cost=%d", mc.ChainConfig.MaxBlockCost()))
 			builtinTwice := ""
 			for _, fn := range e3SortedKeys(fnCount) {
 				if fnCount[fn] > 1 {
